@@ -14,6 +14,7 @@ import (
 	"go.opentelemetry.io/collector/component"
 	"go.opentelemetry.io/collector/confmap"
 	"go.opentelemetry.io/collector/confmap/provider/yamlprovider"
+	"go.opentelemetry.io/collector/confmap/xconfmap"
 	"go.opentelemetry.io/collector/otelcol"
 )
 
@@ -165,6 +166,16 @@ func c13Norm(v any) string {
 
 func c13Render(v any) string { return vHex(c13Norm(v)) }
 
+// c13Hash: id of a rendered leaf (FNV-1a, 64 bit) — the Lean side only compares ids
+func c13Hash(s string) uint64 {
+	h := uint64(14695981039346656037)
+	for i := 0; i < len(s); i++ {
+		h ^= uint64(s[i])
+		h *= 1099511628211
+	}
+	return h
+}
+
 func c13Pairs(m map[string]string) string {
 	if len(m) == 0 {
 		return "-"
@@ -198,6 +209,8 @@ func TestVerifC13Load(t *testing.T) {
 		v    any
 	}
 	toggles := map[string][]toggle{}
+	defFlat := map[string]map[string]any{}    // effective factory default, flattened
+	leafPaths := map[string]map[string]bool{} // schema leaf positions
 	kinds := make([]string, 0, len(c13Catalog))
 	for k := range c13Catalog {
 		kinds = append(kinds, k)
@@ -215,6 +228,9 @@ func TestVerifC13Load(t *testing.T) {
 		}
 		flat := map[string]any{}
 		c13Flatten(eff, "", flat)
+		defFlat[k] = flat
+		leafPaths[k] = map[string]bool{}
+		c13LeafPaths(reflect.TypeOf(f.CreateDefaultConfig()), nil, 0, leafPaths[k])
 		paths := make([]string, 0, len(flat))
 		for p := range flat {
 			paths = append(paths, p)
@@ -241,7 +257,11 @@ func TestVerifC13Load(t *testing.T) {
 		}
 	}
 	names := []string{"", "a", "b", "2"}
+	nInvalid := c13InvalidNested(out, factories)
 	for _, c := range vCases(vN(300)) {
+		if c < nInvalid {
+			continue // case indices 0..nInvalid-1 are the corpus of invalid nested values
+		}
 		rnd := vRand(c)
 		nsec := 0
 		secret := func() string {
@@ -409,6 +429,8 @@ func TestVerifC13Load(t *testing.T) {
 				gotS[vHex(p)] = c13Render(v)
 			}
 			out.Linef("obs eff %s", c13Pairs(gotS))
+			// the same instance against the Lean decode/encode model on the regenerated schema and default
+			c13Faith(out, in, got, defFlat[in.section+"/"+in.typ], leafPaths[in.section+"/"+in.typ])
 			// direct oracles
 			loaded := c13Loaded(cfg, in.section)[id]
 			if loaded == nil {
@@ -446,3 +468,192 @@ func TestVerifC13Load(t *testing.T) {
 		out.Flush()
 	}
 }
+
+// ---- invalid values in nested settings of the built-in components --------------------------------
+// "Every validation rule of every nested configuration value is evaluated": a valid collector
+// configuration gets exactly one invalid nested setting (below embedded structs, pointers used as
+// optionals, squashed structs); loading succeeds, xconfmap.Validate must fail with an error that names
+// the instance and the setting.
+
+type c13Invalid struct {
+	section, id, path string
+	v                 any
+	names             []string // every one of these must occur in the error
+}
+
+func c13LoadJSON(factories otelcol.Factories, root map[string]any) (cfg *otelcol.Config, err error) {
+	defer func() {
+		if r := recover(); r != nil {
+			err = fmt.Errorf("PANIC: %v", r)
+		}
+	}()
+	js, _ := json.Marshal(root)
+	cp, err := otelcol.NewConfigProvider(otelcol.ConfigProviderSettings{ResolverSettings: confmap.ResolverSettings{
+		URIs: []string{"yaml:" + string(js)}, ProviderFactories: []confmap.ProviderFactory{yamlprovider.NewFactory()}}})
+	if err != nil {
+		return nil, err
+	}
+	return cp.Get(context.Background(), factories)
+}
+
+func c13ValidBase() map[string]any {
+	return map[string]any{
+		"receivers": map[string]any{"otlp": map[string]any{"protocols": map[string]any{
+			"grpc": map[string]any{"endpoint": "localhost:4317"}, "http": map[string]any{"endpoint": "localhost:4318"}}},
+			"otlp/2": map[string]any{"protocols": map[string]any{"grpc": map[string]any{"endpoint": "localhost:5317"}}}},
+		"processors": map[string]any{"batch": map[string]any{}, "memory_limiter": map[string]any{"check_interval": "1s", "limit_mib": 100}},
+		"exporters": map[string]any{"otlphttp": map[string]any{"endpoint": "http://localhost:4318"},
+			"otlp": map[string]any{"endpoint": "localhost:4317"}, "debug": map[string]any{}},
+		"extensions": map[string]any{"zpages": map[string]any{"endpoint": "localhost:55679"}},
+		"service": map[string]any{"extensions": []any{"zpages"}, "pipelines": map[string]any{"traces": map[string]any{
+			"receivers": []any{"otlp", "otlp/2"}, "processors": []any{"memory_limiter", "batch"}, "exporters": []any{"otlphttp", "otlp", "debug"}}}},
+	}
+}
+
+func c13InvalidNested(out *vOut, factories otelcol.Factories) int {
+	tlsVer := map[string]any{"min_version": "1.3", "max_version": "1.2"}
+	tlsCA := map[string]any{"ca_file": "/nonexistent/ca.pem", "ca_pem": "x"}
+	tlsBad := map[string]any{"min_version": "9.9"}
+	cat := []c13Invalid{
+		{"receivers", "otlp", "protocols::grpc::tls", tlsVer, []string{"receivers::otlp", "grpc", "tls", "min_version"}},
+		{"receivers", "otlp", "protocols::grpc::tls", tlsCA, []string{"receivers::otlp", "grpc", "tls"}},
+		{"receivers", "otlp", "protocols::http::tls", tlsVer, []string{"receivers::otlp", "http", "tls", "min_version"}},
+		{"receivers", "otlp", "protocols::http::tls", tlsBad, []string{"receivers::otlp", "http", "tls"}},
+		{"receivers", "otlp/2", "protocols::grpc::tls", tlsCA, []string{"receivers::otlp/2", "grpc", "tls"}},
+		{"receivers", "otlp", "protocols::grpc::read_buffer_size", -1, []string{"receivers::otlp", "grpc", "read_buffer_size"}},
+		{"receivers", "otlp/2", "protocols::grpc::write_buffer_size", -1, []string{"receivers::otlp/2", "grpc", "write_buffer_size"}},
+		{"receivers", "otlp", "protocols::grpc::max_recv_msg_size_mib", -1, []string{"receivers::otlp", "grpc", "max_recv_msg_size_mib"}},
+		{"extensions", "zpages", "tls", tlsVer, []string{"extensions::zpages", "tls", "min_version"}},
+		{"extensions", "zpages", "tls", tlsCA, []string{"extensions::zpages", "tls"}},
+		{"exporters", "otlphttp", "tls", tlsCA, []string{"exporters::otlphttp", "tls"}},
+		{"exporters", "otlphttp", "tls", tlsVer, []string{"exporters::otlphttp", "tls", "min_version"}},
+		{"exporters", "otlp", "tls", tlsVer, []string{"exporters::otlp", "tls", "min_version"}},
+		{"exporters", "otlp", "balancer_name", "no_such_balancer", []string{"exporters::otlp", "balancer_name"}},
+		{"exporters", "otlphttp", "sending_queue::queue_size", -1, []string{"exporters::otlphttp", "sending_queue", "queue_size"}},
+		{"exporters", "otlp", "sending_queue::num_consumers", 0, []string{"exporters::otlp", "sending_queue", "num_consumers"}},
+		{"exporters", "otlp", "retry_on_failure::multiplier", -1.0, []string{"exporters::otlp", "retry_on_failure", "multiplier"}},
+		{"exporters", "otlphttp", "retry_on_failure::randomization_factor", 2.0, []string{"exporters::otlphttp", "retry_on_failure", "randomization_factor"}},
+		{"exporters", "otlp", "timeout", "-1s", []string{"exporters::otlp", "timeout"}},
+		{"processors", "batch", "send_batch_max_size", 1, []string{"processors::batch", "send_batch_max_size"}},
+		{"processors", "memory_limiter", "check_interval", "0s", []string{"processors::memory_limiter", "check_interval"}},
+		{"exporters", "debug", "verbosity", "none", []string{"exporters::debug", "verbosity"}},
+	}
+	// case 0: the base itself is valid
+	out.Linef("case 0 invalid-nested=base")
+	out.Linef("op inst id=%s def=- w=-", vHex("base"))
+	out.Linef("obs eff -")
+	cfg, err := c13LoadJSON(factories, c13ValidBase())
+	if err == nil {
+		err = xconfmap.Validate(cfg)
+	}
+	if err != nil {
+		out.Linef("viol sig=C13/load/valid-config-rejected err=%s", vHex(err.Error()))
+	}
+	out.Linef("end")
+	for i, iv := range cat {
+		out.Linef("case %d invalid-nested=%s/%s/%s", i+1, iv.section, iv.id, iv.path)
+		out.Linef("op inst id=%s def=- w=-", vHex(fmt.Sprintf("invalid-%d", i)))
+		out.Linef("obs eff -")
+		root := c13ValidBase()
+		c13SetPath(root[iv.section].(map[string]any)[iv.id].(map[string]any), iv.path, iv.v)
+		cfg, err := c13LoadJSON(factories, root)
+		switch {
+		case err != nil:
+			// rejected already while loading (decode-time validation): also fine, must name the entry
+			if !strings.Contains(err.Error(), iv.id) {
+				out.Linef("viol sig=C13/validate/error-does-not-name-entry at=%s/%s::%s err=%s", iv.section, iv.id, iv.path, vHex(err.Error()))
+			}
+			out.Linef("stat invalid_nested_rejected_at_load 1")
+		default:
+			verr := xconfmap.Validate(cfg)
+			if verr == nil {
+				out.Linef("viol sig=C13/validate/invalid-nested-value-accepted at=%s::%s::%s value=%v", iv.section, iv.id, iv.path, iv.v)
+			} else {
+				for _, n := range iv.names {
+					if !strings.Contains(verr.Error(), n) {
+						out.Linef("viol sig=C13/validate/error-does-not-name-path at=%s::%s::%s missing=%s err=%s", iv.section, iv.id, iv.path, n, vHex(verr.Error()))
+						break
+					}
+				}
+			}
+			out.Linef("stat invalid_nested_rejected_by_validate 1")
+		}
+		out.Linef("nt")
+		out.Linef("end")
+		out.Flush()
+	}
+	return len(cat) + 1
+}
+
+// c13Faith emits `op faith` / `obs shown`: the written leaves (ids), the queried schema leaves, and what
+// the instance's effective configuration shows for them.
+func c13Faith(out *vOut, in *c13Inst, got map[string]any, def map[string]any, leaves map[string]bool) {
+	id := func(v any) string { return fmt.Sprint(c13Hash(strings.ToLower(c13Norm(v)))) }
+	w := map[string]string{}
+	writtenTop := map[string]bool{}
+	show := map[string]string{}
+	render := func(p string, written bool) string {
+		v, ok := got[p]
+		if !ok {
+			for k := range got {
+				if strings.HasPrefix(k, p+"::") {
+					return "M"
+				}
+			}
+			return fmt.Sprint(c13AbsentIDLoad)
+		}
+		rv := reflect.ValueOf(v)
+		switch {
+		case !rv.IsValid() || ((rv.Kind() == reflect.Pointer || rv.Kind() == reflect.Map || rv.Kind() == reflect.Slice) && rv.IsNil() && !written):
+			if !rv.IsValid() {
+				return "nil"
+			}
+		}
+		if s, isStr := v.(string); isStr && s == "[REDACTED]" {
+			return "R"
+		}
+		if written && rv.IsValid() && (rv.Kind() == reflect.Map || rv.Kind() == reflect.Slice) {
+			return "M"
+		}
+		return id(v)
+	}
+	for _, l := range in.leaves {
+		w[vHex(l.path)] = id(l.v)
+		writtenTop[strings.SplitN(l.path, "::", 2)[0]] = true
+		// the queried position: the leaf itself, or the map-kind leaf above it (headers::authorization → headers)
+		q := l.path
+		for q != "" && !leaves[q] {
+			if i := strings.LastIndex(q, "::"); i >= 0 {
+				q = q[:i]
+			} else {
+				q = ""
+			}
+		}
+		if q != "" {
+			show[vHex(q)] = render(q, true)
+		}
+	}
+	for p := range def {
+		// otlpreceiver.Config.Unmarshal (custom, listed in Gen.customPositions) removes the protocols that are
+		// not written: unwritten defaults below `protocols` are by design not those of the factory default
+		if in.section+"/"+in.typ == "receivers/otlp" && strings.HasPrefix(p, "protocols") {
+			continue
+		}
+		if leaves[p] && !writtenTop[strings.SplitN(p, "::", 2)[0]] {
+			show[vHex(p)] = render(p, false)
+		}
+	}
+	var qs []string
+	for k := range show {
+		qs = append(qs, k)
+	}
+	sort.Strings(qs)
+	q := "-"
+	if len(qs) > 0 {
+		q = strings.Join(qs, ",")
+	}
+	out.Linef("op faith comp=%s w=%s q=%s", vHex(in.section+"/"+in.typ), c13Pairs(w), q)
+	out.Linef("obs shown %s", c13Pairs(show))
+}
+
+var c13AbsentIDLoad = c13Hash("<absent>")
